@@ -572,13 +572,19 @@ theorem C14_boundary_tick (i : Id) (d : Data) (e : Nat) :
 
 /-! ### C14_torn_file -/
 
-theorem loadData_benign {st : St} (hb : NoOther st.store) (i : Id) : ∃ d, loadData st i = some d := by
+theorem loadData_benign {st : St} (_hb : NoOther st.store) (i : Id) : ∃ d, loadData st i = some d := by
   unfold loadData
   split
   · exact ⟨_, rfl⟩
   · split <;> exact ⟨_, rfl⟩
-  · rename_i hl
-    exact absurd (lookup_mem hl) (hb i)
+  · exact ⟨_, rfl⟩
+
+/-- since the F14d repair `load` never fails, whatever the file holds -/
+theorem loadData_total (st : St) (i : Id) : ∃ d, loadData st i = some d := by
+  unfold loadData
+  split
+  · exact ⟨_, rfl⟩
+  · split <;> exact ⟨_, rfl⟩
   · exact ⟨_, rfl⟩
 
 /-- Relative to the measured pickle contract, every proper prefix of a saved file is a record of a
@@ -692,7 +698,6 @@ theorem loadData_dead {st : St} {i : Id} (hd : DeadAll st i) {d : Data} (h : loa
       rcases this with h1 | h1
       · exact absurd h1 hne
       · exact h1
-  · cases h
   · cases h; rfl
 
 /-- invariant of a request on a store in which `i` is dead -/
@@ -1088,24 +1093,14 @@ example : FutureNot exCfg exDeadSt 1 := by
 example : (request exCfg exDeadSt (.id 1) [.read, .delKey 1, .read]).2 = ⟨.ok, some 1, false, [[], []]⟩ := by
   decide
 
-/-! ### damaged files that are not truncated pickles (finding F14d) -/
+/-! ### damaged files that are not truncated pickles (finding F14d, repaired) -/
 
 /-- "a damaged session file is never an error": the reading of the statement that covers *every*
-    file content.  False on the unchanged tree; the part that holds is `C14_damaged_partial`. -/
+    file content.  It was false before the F14d repair (`_load` let exception classes other than
+    EOFError / UnpicklingError through); `C14_damaged_full_holds` proves it for the repaired code. -/
 def C14_damaged_full : Prop :=
   ∀ (cfg : Cfg) (st : St) (ck : Cookie) (hops : List HOp), HOp.raise ∉ hops →
     (request cfg st ck hops).2.status ≠ .err500 ∧ (sweepFile st.now st.store).2 = false
-
-theorem C14_damaged_full_false : ¬ C14_damaged_full := by
-  intro h
-  have := (h exCfg { store := [(1, .bad .other)] } (.id 1) [.read] (by decide)).1
-  revert this
-  decide
-
-/-- the sweep is left at the first such file: the expired session behind it stays (witness) -/
-theorem C14_sweep_abort_witness :
-    sweepFile 5 [(1, .good [] 1), (2, .bad .other), (3, .good [] 1)] =
-      ([(2, .bad .other), (3, .good [] 1)], true) := by decide
 
 theorem runHops_no500 (cfg : Cfg) (hs : List HOp) (st : St) (s : Sess) (hb : NoOther st.store)
     (hnr : HOp.raise ∉ hs) :
@@ -1122,7 +1117,7 @@ theorem runHops_no500 (cfg : Cfg) (hs : List HOp) (st : St) (s : Sess) (hb : NoO
       unfold ensureLoaded at hn
       split at hn
       · cases hn
-      · obtain ⟨d, hd⟩ := loadData_benign hb s.id
+      · obtain ⟨d, hd⟩ := loadData_total st s.id
         rw [hd] at hn
         cases hn
     split at hr
@@ -1132,6 +1127,54 @@ theorem runHops_no500 (cfg : Cfg) (hs : List HOp) (st : St) (s : Sess) (hb : NoO
         have := hop_store_sub cfg st s h (j, .bad .other) (by rw [h1]; exact hm)
         exact hb j this
       exact ih st1 s1 hsub hnr' e st' s' hr
+    · rename_i e1 st1 s1 h1
+      cases hr
+      cases h with
+      | read => simp only [hop] at h1; split at h1
+                · rename_i hn; exact absurd hn (hload s)
+                · cases h1
+      | write k v => simp only [hop] at h1; split at h1
+                     · rename_i hn; exact absurd hn (hload s)
+                     · cases h1
+      | delKey k => simp only [hop] at h1; split at h1
+                    · rename_i hn; exact absurd hn (hload s)
+                    · cases h1
+      | clear => simp only [hop] at h1; split at h1
+                 · rename_i hn; exact absurd hn (hload s)
+                 · cases h1
+      | regenerate => simp only [hop] at h1; split at h1
+                      · cases h1; intro hc; cases hc
+                      · cases h1
+      | delete => simp only [hop] at h1; split at h1 <;> cases h1
+      | expire => simp only [hop] at h1; cases h1
+      | acc a => simp only [hop] at h1; split at h1
+                 · rename_i hn; exact absurd hn (hload s)
+                 · cases h1
+      | len => simp only [hop] at h1; cases h1
+      | raise => exact absurd rfl hne
+
+/-- the same without any hypothesis on the files (F14d repaired) -/
+theorem runHops_no500' (cfg : Cfg) (hs : List HOp) (st : St) (s : Sess)
+    (hnr : HOp.raise ∉ hs) :
+    ∀ e st' s', runHops cfg st s hs = .fail e st' s' → e ≠ .err500 := by
+  induction hs generalizing st s with
+  | nil => intro e st' s' h; simp [runHops] at h
+  | cons h hs ih =>
+    intro e st' s' hr
+    have hnr' : HOp.raise ∉ hs := fun hm => hnr (List.mem_cons_of_mem _ hm)
+    have hne : h ≠ .raise := fun e => hnr (e ▸ List.mem_cons_self)
+    simp only [runHops] at hr
+    have hload : ∀ s : Sess, ensureLoaded st s ≠ none := by
+      intro s hn
+      unfold ensureLoaded at hn
+      split at hn
+      · cases hn
+      · obtain ⟨d, hd⟩ := loadData_total st s.id
+        rw [hd] at hn
+        cases hn
+    split at hr
+    · rename_i st1 s1 h1
+      exact ih st1 s1 hnr' e st' s' hr
     · rename_i e1 st1 s1 h1
       cases hr
       cases h with
@@ -1188,6 +1231,38 @@ theorem C14_damaged_partial (cfg : Cfg) (st : St) (ck : Cookie) (hops : List HOp
     · intro hc; cases hc
     · rename_i e st1 s1 hr
       exact runHops_no500 cfg hops st0 s0 (by rw [e1]; exact hb) hnr e st1 s1 hr
+
+/-- **Every damaged file is an absent session** (F14d repaired): whatever the files hold - truncated
+    pickles, garbage on which `pickle.load` raises any class, pickles of another shape - no request is
+    answered 500 because of them, whatever the cookie and the handler, and the sweep runs to the end. -/
+theorem C14_damaged_full_holds : C14_damaged_full := by
+  intro cfg st ck hops hnr
+  refine ⟨?_, sweepFile_never_aborted _ _⟩
+  unfold request
+  split
+  · rename_i e hi
+    intro hc
+    simp only at hc
+    subst hc
+    cases ck with
+    | none => simp only [initSess] at hi; split at hi <;> cases hi
+    | id c => simp only [initSess] at hi; split at hi
+              · cases hi
+              · split at hi <;> cases hi
+    | escaping c =>
+      simp only [initSess] at hi; split at hi
+      · cases hi
+      · split at hi
+        · cases hi
+        · split at hi <;> cases hi
+  · rename_i s0 st0 hi
+    split
+    · intro hc; cases hc
+    · rename_i e st1 s1 hr
+      exact runHops_no500' cfg hops st0 s0 hnr e st1 s1 hr
+
+example : (request exCfg { store := [(1, .bad .other)] } (.id 1) [.read]).2 = ⟨.ok, some 1, false, [[]]⟩ ∧
+    sweepFile 5 [(1, .good [] 1), (2, .bad .other), (3, .good [] 1)] = ([(2, .bad .other)], false) := by decide
 
 example : NoOther [(1, Rec.bad .eof), (2, .good [] 3)] := by
   intro i hm
